@@ -314,7 +314,7 @@ impl System {
 
         if let Some(username) = username.to_owned() {
             let user = self.get_user(user_id)?;
-            let existing_user = self.get_user(&username.to_owned().try_into()?);
+            let existing_user = self.get_user(&Identifier::named(&username)?);
             if existing_user.is_ok() && existing_user.unwrap().id != user.id {
                 error!("User: {username} already exists.");
                 return Err(IggyError::UserAlreadyExists);
@@ -434,7 +434,7 @@ impl System {
         password: Option<&str>,
         session: Option<&Session>,
     ) -> Result<&User, IggyError> {
-        let user = match self.get_user(&username.try_into()?) {
+        let user = match self.get_user(&Identifier::named(username)?) {
             Ok(user) => user,
             Err(_) => {
                 error!("Cannot login user: {username} (not found).");
